@@ -21,17 +21,17 @@ open Cppcms Cppcms.C16
 
 /-! ## MD5 -/
 
-/-- the bundled MD5 object is a lawful streaming implementation of `md5Hash` for appends < 2^31 bytes,
+/-- the bundled MD5 object is a lawful streaming implementation of `md5Hash` for appends of any length,
 whatever the 64-byte buffer contained when it was constructed -/
-def md5Laws (buf0 : Bytes) (h : buf0.length = 64) : HashLaws (md5Obj buf0) md5Hash (· < 2 ^ 31) where
+def md5Laws (buf0 : Bytes) (h : buf0.length = 64) : HashLaws (md5Obj buf0) md5Hash (fun _ => True) where
   rep := Md5Inv
   fresh := md5Init_inv buf0 h
-  append := fun s m d hi hd => md5Append_inv s m d hi hd
+  append := fun s m d hi _ => md5Append_inv s m d hi
   readout := fun s m hi => md5Readout_spec s m hi
   digest_len := fun m => by simp [md5Hash, Spec.mdHash, md5Out]; rfl
   digest_le_block := by show Gen.md5DigestSize ≤ Gen.md5BlockSize; decide
-  block_ok := by show Gen.md5BlockSize < 2 ^ 31; decide
-  ok_mono := fun _ _ h1 h2 => Nat.lt_of_le_of_lt h1 h2
+  block_ok := trivial
+  ok_mono := fun _ _ _ _ => trivial
 
 /-- `md5_process` as translated (64 `SET` lines, `T1..T64`, `F/G/H/I`, `ROTATE_LEFT`, the byte-to-word
 expression, the final additions) is the compression function of RFC 1321 §3.4 -/
@@ -43,27 +43,27 @@ theorem md5Hash_eq : md5Hash = Spec.md5 := funext md5Hash_eq_spec
 
 /-- every way of feeding a message to a fresh (or re-initialised) MD5 object gives the RFC 1321 MD5 of
 the concatenation, independent of stale buffer content -/
-theorem md5_stream_eq_spec (buf0 : Bytes) (h : buf0.length = 64) (chunks : List Bytes)
-    (hc : ∀ c ∈ chunks, c.length < 2 ^ 31) :
+theorem md5_stream_eq_spec (buf0 : Bytes) (h : buf0.length = 64) (chunks : List Bytes) :
     (md5Readout (chunks.foldl md5Append (md5Init buf0))).1 = Spec.md5 chunks.flatten := by
-  have := (md5Laws buf0 h).foldl chunks _ [] (md5Laws buf0 h).fresh hc
+  have := (md5Laws buf0 h).foldl chunks _ [] (md5Laws buf0 h).fresh (fun _ _ => trivial)
   rw [← md5Hash_eq]
   exact ((md5Laws buf0 h).readout _ _ this).1
 
 /-- reuse after read-out: one object, any number of messages, each fed in any pieces -/
-theorem md5_session_eq_spec (buf0 : Bytes) (h : buf0.length = 64) (msgs : List (List Bytes))
-    (hc : ∀ cs ∈ msgs, ∀ c ∈ cs, c.length < 2 ^ 31) :
+theorem md5_session_eq_spec (buf0 : Bytes) (h : buf0.length = 64) (msgs : List (List Bytes)) :
     (md5Obj buf0).session (md5Obj buf0).fresh msgs = msgs.map fun cs => Spec.md5 cs.flatten := by
   rw [← md5Hash_eq]
-  exact (md5Laws buf0 h).session msgs _ (md5Laws buf0 h).fresh hc
+  exact (md5Laws buf0 h).session msgs _ (md5Laws buf0 h).fresh (fun _ _ _ _ => trivial)
 
-/-- documented excluded point of the bound above: `md5_digets::append(ptr, size)` passes `size` as an
-`int`; a single append of exactly 2^31 bytes is dropped without any effect -/
-theorem md5_append_int_truncation (s : Md5State) (d : Bytes) (h : d.length = 2 ^ 31) : md5Append s d = s := by
-  simp [md5Append, h]
+/-- D14 (found while building this check, fixed in /repo by "fix: md5 message_digest::append feeds inputs
+longer than INT_MAX in pieces"): `md5_append` itself still takes an `int`; a call with a count of
+2^31 is ignored.  `md5_digets::append` as found passed `size_t size` straight to it, so a single
+append of 2^31 bytes vanished; it now loops over pieces of `Gen.md5MaxChunk` bytes and the theorems
+above carry no bound on the chunk length any more. -/
+theorem md5_append_int_truncation (s : Md5State) (d : Bytes) : md5AppendInt s d (2 ^ 31) = s := by
+  simp [md5AppendInt]
 
-example : ∃ chunks : List Bytes, (∀ c ∈ chunks, c.length < 2 ^ 31) ∧ chunks.length = 3 :=
-  ⟨[[1, 2], [], [3]], by decide, rfl⟩
+example : Gen.md5MaxChunk < 2 ^ 31 ∧ 0 < Gen.md5MaxChunk := by decide
 
 /-! ## SHA-1 -/
 
@@ -144,12 +144,11 @@ theorem hmac_eq_rfc2104 {σ : Type} (H : HashObj σ) (hash : Bytes → Bytes) (o
     (hmacObj H key).session (hmacNew H key) msgs = msgs.map fun cs => Spec.hmac hash H.blockSize key cs.flatten :=
   (hmacLaws L key hk).session msgs _ (hmacLaws L key hk).fresh hc
 
-theorem hmac_md5_eq_rfc2104 (buf0 : Bytes) (h : buf0.length = 64) (key : Bytes) (hk : key.length < 2 ^ 31)
-    (msgs : List (List Bytes)) (hc : ∀ cs ∈ msgs, ∀ c ∈ cs, c.length < 2 ^ 31) :
+theorem hmac_md5_eq_rfc2104 (buf0 : Bytes) (h : buf0.length = 64) (key : Bytes) (msgs : List (List Bytes)) :
     (hmacObj (md5Obj buf0) key).session (hmacNew (md5Obj buf0) key) msgs =
       msgs.map fun cs => Spec.hmac Spec.md5 64 key cs.flatten := by
   rw [← md5Hash_eq]
-  exact hmac_eq_rfc2104 _ _ _ (md5Laws buf0 h) key hk msgs hc
+  exact hmac_eq_rfc2104 _ _ _ (md5Laws buf0 h) key trivial msgs (fun _ _ _ _ => trivial)
 
 theorem hmac_sha1_eq_rfc2104 (block0 : Bytes) (h : block0.length = 64) (key : Bytes) (msgs : List (List Bytes)) :
     (hmacObj (sha1Obj block0) key).session (hmacNew (sha1Obj block0) key) msgs =
